@@ -156,6 +156,9 @@ def build(t):
         return mk_cons(t["v"])
     if k == "bounds":
         return fill_pd(cfdm.Bounds(), t["v"])
+    if k in ("iring", "count", "index", "list"):
+        cls = {"iring": cfdm.InteriorRing, "count": cfdm.Count, "index": cfdm.Index, "list": cfdm.List}[k]
+        return fill_pd(cls(), t["v"])
     if k == "axis":
         return cfdm.DomainAxis(t["v"]) if t["v"] is not None else cfdm.DomainAxis()
     if k == "cm":
@@ -167,7 +170,8 @@ def build(t):
     if k == "field":
         return mk_field(t["v"])
     if k == "py":
-        return {"str": "a string", "none": None, "int": 3, "list": [1, 2]}[t["v"]]
+        return {"str": "a string", "none": None, "int": 3, "list": [1, 2], "nparr": np.arange(3.0),
+                "dict": {"a": 1}}[t["v"]]
     raise RuntimeError("bad kind " + k)
 
 
@@ -307,6 +311,15 @@ def main():
         kw = conv_opts(x, c["opts"])
         row = call(lambda: x.equals(y, **kw))
         row["kw"] = sorted(kw)
+        if c.get("conv"):
+            # what ignore_type=True is documented to mean: compare with type(x)(source=y)
+            kw2 = {k: v for k, v in kw.items() if k != "ignore_type"}
+            try:
+                yc = type(x)(source=y, copy=False)
+            except Exception as e:  # noqa
+                row["conv"] = {"r": None, "exc": "CONV:" + type(e).__name__, "msg": str(e)[:120]}
+            else:
+                row["conv"] = call(lambda: x.equals(yc, **kw2))
         if c.get("seq"):
             row["seq"] = sequence(x, y, kw)
         if c.get("extra"):
